@@ -554,11 +554,63 @@ class Interp:
             return ("regex", const(node.args[0].value), ("extname", ast.unparse(fl)) if fl is not None else NONE)
         return None
 
+    def _const_global(self, mod, node, depth=0):
+        """Python value of a module-level constant expression (numbers, strings, tuples/lists, range, chain, arithmetic,
+        other constant globals); raises ValueError otherwise."""
+        if depth > 8:
+            raise ValueError
+        ev = lambda n: self._const_global(mod, n, depth + 1)
+        if isinstance(node, ast.Constant):
+            return node.value
+        if isinstance(node, (ast.Tuple, ast.List)):
+            return tuple(ev(e) for e in node.elts)
+        if isinstance(node, ast.Name):
+            g = mod.globals.get(node.id)
+            if g is None:
+                raise ValueError
+            return ev(g)
+        if isinstance(node, ast.BinOp) and isinstance(node.op, (ast.Add, ast.Sub, ast.Mult)):
+            a, b = ev(node.left), ev(node.right)
+            if isinstance(a, (int, str, tuple)) and type(a) is type(b) or (isinstance(a, int) and isinstance(b, int)):
+                return a + b if isinstance(node.op, ast.Add) else (a - b if isinstance(node.op, ast.Sub) else a * b)
+            raise ValueError
+        if isinstance(node, ast.UnaryOp) and isinstance(node.op, ast.USub):
+            v = ev(node.operand)
+            if isinstance(v, int):
+                return -v
+            raise ValueError
+        if isinstance(node, ast.Call) and not node.keywords:
+            fn = node.func.id if isinstance(node.func, ast.Name) else (node.func.attr if isinstance(node.func, ast.Attribute) else None)
+            args = [ev(a) for a in node.args]
+            if fn == "range" and all(isinstance(a, int) for a in args) and 1 <= len(args) <= 3:
+                r = range(*args)
+                if len(r) > 4096:
+                    raise ValueError
+                return tuple(r)
+            if fn in ("tuple", "list") and len(args) == 1 and isinstance(args[0], tuple):
+                return args[0]
+            if fn == "chain" and all(isinstance(a, tuple) for a in args):
+                return tuple(x for a in args for x in a)
+            if fn == "len" and len(args) == 1 and isinstance(args[0], (tuple, str)):
+                return len(args[0])
+        raise ValueError
+
+    def _value_term(self, v):
+        if isinstance(v, tuple):
+            return ("tuple", tuple(self._value_term(x) for x in v))
+        return const(v)
+
     def _resolved(self, r, name):
         if r[0] == "global":
             rx = self._regex_of(r[1].globals.get(r[2]))
             if rx is not None:
                 return rx
+            gv = r[1].globals.get(r[2])
+            if isinstance(gv, (ast.Call, ast.BinOp)) and r[2] != "RULE_TYPE":
+                try:
+                    return self._value_term(self._const_global(r[1], gv))
+                except ValueError:
+                    pass
         if r[0] == "class":
             return ("class", r[1].qualname)
         if r[0] == "func":
@@ -684,6 +736,9 @@ class Interp:
                 parts.append(const(v.value))
             elif isinstance(v, ast.FormattedValue):
                 parts.append(self.ev(st, v.value, tree))
+        if all(is_const(p_) and isinstance(p_[1], (str, int)) and not isinstance(p_[1], bool) for p_ in parts) \
+                and not any(isinstance(v, ast.FormattedValue) and v.format_spec is not None for v in n.values):
+            return const("".join(str(p_[1]) for p_ in parts))
         return ("fstr", tuple(parts))
 
     def ev_UnaryOp(self, st, n, tree):
@@ -1033,8 +1088,16 @@ class Interp:
         g = gens[i]
         it = self.ev(st, g.iter, tree)
         # a generator over a small constant table is unrolled: one group of elements per table entry, in order
-        elems = self._unroll_elems(it) if kind != "dict" else None
-        if elems is not None and 0 < len(elems) <= 16 and not getattr(self.obj(it), "dirty", False):
+        elems = self._unroll_elems(it)
+        if kind == "dict" and elems is not None and 0 < len(elems) <= 64 and len(gens) == 1 and not g.ifs:
+            entries = []
+            for el in elems:
+                f = st.fork()
+                self.bind_target(f, g.target, el)
+                entries.append((self.ev(f, n.key, tree), self.ev(f, n.value, tree)))
+            if all(is_const(k_) for k_, _ in entries):
+                return ("dictlit", self.new_dict(entries, n, tree))
+        if kind != "dict" and elems is not None and 0 < len(elems) <= 16 and not getattr(self.obj(it), "dirty", False):
             segs = []
             ok = True
             for el in elems:
@@ -1082,7 +1145,10 @@ class Interp:
         return ("call", "set", (self._comp(st, n, tree, "set"),), ())
 
     def ev_DictComp(self, st, n, tree):
-        return ("call", "dict", (self._comp(st, n, tree, "dict"),), ())
+        r = self._comp(st, n, tree, "dict")
+        if r[0] == "dictlit":
+            return r[1]
+        return ("call", "dict", (r,), ())
 
     def bind_target(self, st: State, tgt: ast.expr, value, lid=None, iter_term=None):
         if isinstance(tgt, ast.Name):
